@@ -56,3 +56,71 @@ def long_jump(n, kind):
     if kind == "func":
         return "g!() =\n" + "".join(f"    discard {i}\n" for i in range(n)) + '    print! "g"\ng!()\n'
     raise ValueError(kind)
+
+
+# --- with! x (body raises | returns | is suppressed) x syntactic context ---------------------------
+_CM = ('unsound = import "unsound"\n'
+       'C = Class {tag = Str; swallow = Bool}\n'
+       'C|<: ContextManager|.\n'
+       '    __enter__ self =\n'
+       '        unsound.perform do!:\n'
+       '            print! "enter", self::tag\n'
+       '        self\n'
+       '    __exit__ self, _, _, _ =\n'
+       '        unsound.perform do!:\n'
+       '            print! "exit", self::tag\n'
+       '        self::swallow\n'
+       'boom!() =\n'
+       '    print! int("zz")\n')
+
+WITH_BODIES = {
+    "returns": ['print! "body", {c} != None'],
+    "raises": ['print! "body", {c} != None', 'print! int("zz")', 'print! "unreachable"'],
+    "raises-in-callee": ['print! "body", {c} != None', 'boom!()', 'print! "unreachable"'],
+    "raises-first": ['print! int("zz")'],
+    "suppressed": ['print! "body", {c} != None', 'print! int("zz")'],
+}
+
+
+def _with(tag, body, indent, var="c", swallow=False):
+    pad = " " * indent
+    head = f'{pad}with! C.new({{tag = "{tag}"; swallow = {swallow}}}), {var} =>\n'
+    return head + "".join(pad + "    " + line.replace("{c}", var) + "\n" for line in body)
+
+
+def _indent(text, n):
+    return "".join(" " * n + line + "\n" for line in text.splitlines())
+
+
+def with_family(tier):
+    """every body kind in every context; thorough adds padding so that the protected range and
+    the handler lie beyond 64 / 4096 code units (multi-byte entries of the 3.11 exception table)
+    and bodies so long that a jump inside the protected range needs EXTENDED_ARG."""
+    out = []
+    pads = (0, 40) if tier == "quick" else (0, 40, 700, 3000)
+    for bname, body in WITH_BODIES.items():
+        sw = bname == "suppressed"
+        w0 = _with("a", body, 0, swallow=sw)
+        ctxs = {
+            "toplevel": w0,
+            "proc": "p!() =\n" + _indent(w0, 4) + '    print! "end of p"\np!()\n',
+            "for": "for! 0..<2, i =>\n    print! i\n" + _indent(w0, 4),
+            "while": "k = !0\nwhile! do!(k < 2), do!:\n    k.inc!()\n" + _indent(w0, 4),
+            "if": "t = True\nif! t, do!:\n" + _indent(w0, 4),
+            "proc-in-for": "p!() =\n    for! 0..<2, i =>\n        print! i\n" + _indent(w0, 8) + "p!()\n",
+            "outer-with": _with("o", ['print! "outer body"'] + w0.splitlines() + ['print! "outer rest"'], 0, var="o"),
+            "two-in-a-row": _with("z", ['print! "first"'], 0, var="z") + w0,
+            "method": "D = Class()\nD.\n    run! self =\n" + _indent(w0, 8) + 'D.new().run!()\n',
+            "lambda-proc": "q! = () =>\n" + _indent(w0, 4) + "q!()\n",
+        }
+        if bname in ("raises", "returns"):
+            big = ["t = False", "if! t, do!:"] + [f"    discard {i}" for i in range(150)]
+            ctxs["long-if-in-body"] = _with("a", big + body, 0, swallow=sw)
+            ctxs["long-for-in-body"] = _with("a", ["for! 0..<1, j =>"] + [f"    discard {i}" for i in range(150)] + body, 0, swallow=sw)
+        for cname, src in ctxs.items():
+            for pad in pads:
+                if pad and cname not in ("toplevel", "proc", "outer-with"):
+                    continue
+                padding = "".join(f"discard {i}\n" for i in range(pad))
+                out.append((f"with:{bname}:{cname}:pad{pad}", _CM + padding + src + 'print! "after"\n'))
+    return out
